@@ -23,7 +23,7 @@ CHECKS = {
          "The full grid (~9000 malformed calls per case) is executed for every entry point at a fresh, busy, busier and drained heap; after every call: NULL / errno / untouched out-parameter, allocated-block count unchanged, "
          "realloc victim intact, only EOVERFLOW/ENOMEM reported; well-formed requests of the surrounding history must succeed unless the OS ledger shows a refusal.", "3 C06"),
  "C07": ("drv_seq faults profile + OS shim", "fault enumeration: the k-th mmap/munmap/mprotect/madvise call of a workload fails (once, or persistently until a heal point) in a fresh process per position; shadow-model, crash, post-heal battery and give-back oracles",
-         "Clean runs measure the OS calls of 6-8 workload/option setups; then one process per fault position and class (all positions in the thorough tier, a stride sample in the quick tier). "
+         "Clean runs measure the OS calls of 6-8 workload/option setups; then one process per fault position and class (the first three, the last and a random sample of positions per call class: 10 in the quick tier, 150 in the thorough tier; every position when the workload makes fewer calls). "
          "A plan counts as covered only if its fault really fired (INJECTED counter).", "3 C07"),
  "C02": ("drv_mt xfree scenario + vf_sched", "schedule-controlled execution of real threads (every mi_atomic op / yield / lock a switch point; targeted, uniform and PCT policies; spurious weak-CAS failures), parallel runs with injected delays, ThreadSanitizer; pattern + lifetime-replay oracles",
          "~13000 executions of 24 tiny programs (1 owner, 2-3 freeing threads) under ENUMERATED preemptions (script policy: every single preemption of a freeing thread, every pair within 3 switch points x every choice of who runs in the windows, sampled owner preemptions / spurious CAS failures); 1200 baton schedules (2-4 threads, 40-300 ops each) on release and debug builds + 12 parallel delay/off runs (4-12 threads, 20-60k ops) + 6 TSan runs per quick run; every block carries a unique-id pattern verified by its current holder; "
